@@ -4,6 +4,7 @@
   address and upstream reply (any number of OPT records in any section: `dnsmsg.RemoveEDNS0` removes them all).
 -/
 import MosVerif.Props.C12Pins
+import MosVerif.Lemmas.TranslatedC12
 import MosVerif.Lemmas.RouterBasic
 import MosVerif.Lemmas.OptPop
 import MosVerif.Lemmas.RouterSpecMain
@@ -105,7 +106,7 @@ theorem client_options_never_forwarded (env : Env) (m m' : Msg)
     length 7, family 1, source prefix 24, scope 0 and exactly the first three address octets. -/
 theorem ecs_v4 (b0 b1 b2 b3 : UInt8) :
     makeECS (.v4 [b0, b1, b2, b3]) = some [0, 8, 0, 7, 0, 1, 24, 0, b0, b1, b2] := by
-  simp [makeECS, Addr.unmap, enc16, ecsKeep4, ecsMask4, Facts.ecs_truncated4, Facts.ecs_mask4, maskBytes, List.range,
+  simp [makeECS, Addr.unmap, enc16, ecsLen4, ecsFamily4, ecsKeep4, ecsMask4, Facts.ecs_truncated4, Facts.ecs_mask4, maskBytes, List.range,
     List.range.loop]
 
 theorem ecs_v4mapped (b0 b1 b2 b3 : UInt8) :
@@ -121,7 +122,7 @@ theorem ecs_v6 (a0 a1 a2 a3 a4 a5 a6 a7 a8 a9 a10 a11 a12 a13 a14 a15 : UInt8)
       = .v6 [a0, a1, a2, a3, a4, a5, a6, a7, a8, a9, a10, a11, a12, a13, a14, a15] := by
     simp only [Addr.unmap, List.take, List.drop]
     rw [if_neg hnm]
-  simp [makeECS, this, enc16, ecsKeep6, ecsMask6, Facts.ecs_truncated6, Facts.ecs_mask6, maskBytes, List.range,
+  simp [makeECS, this, enc16, ecsLen6, ecsFamily6, ecsKeep6, ecsMask6, Facts.ecs_truncated6, Facts.ecs_mask6, maskBytes, List.range,
     List.range.loop]
 
 /-- no ECS for an unknown client address -/
